@@ -609,6 +609,7 @@ sqascii_SetDigital(ESL_SQFILE *sqfp, const ESL_ALPHABET *abc)
       case eslSQFILE_GENBANK:    inmap_genbank(sqfp, abc->inmap); break;
       case eslSQFILE_DDBJ:       inmap_genbank(sqfp, abc->inmap); break;
       case eslSQFILE_FASTA:      inmap_fasta(sqfp,   abc->inmap); break;
+      case eslSQFILE_HMMPGMD:    inmap_fasta(sqfp,   abc->inmap); break;   /* as in esl_sqascii_Open(): FASTA after the # header line */
       case eslSQFILE_DAEMON:     inmap_daemon(sqfp,  abc->inmap); break;
 
       default:                   status = eslEFORMAT;             break;
